@@ -218,9 +218,13 @@ func (e *Engine) noteAssumption(a string) {
 }
 
 func (e *Engine) skipInit(path string) bool {
-	// package initialisers that are never executed (their globals stay zero; stubs cover their use)
-	for _, p := range []string{"go.uber.org/", "github.com/trustbloc/logutil-go", "os", "syscall", "runtime", "time", "reflect", "internal/", "sync", "net", "crypto", "encoding/json", "encoding/base64", "encoding/hex", "unicode", "regexp", "fmt", "log", "io", "bufio", "bytes", "math/big", "math/rand", "compress/", "hash/", "testing", "flag", "context", "go.opentelemetry.io/", "github.com/stretchr/"} {
-		if path == p || strings.HasPrefix(path, p) {
+	// package initialisers that are never executed (their globals stay zero; stubs cover their use).
+	// Entries ending in "/" match a whole tree, the others one package.
+	for _, p := range []string{"go.uber.org/", "github.com/trustbloc/logutil-go/", "os", "os/", "syscall", "runtime", "runtime/", "time", "reflect", "internal/",
+		"sync", "sync/", "net", "net/", "crypto", "crypto/", "encoding/json", "encoding/base64", "encoding/hex", "unicode", "regexp", "regexp/", "fmt", "log", "io", "io/", "bufio",
+		"bytes", "math/big", "math/rand", "compress/", "hash", "hash/", "testing", "flag", "context", "go.opentelemetry.io/", "github.com/stretchr/",
+		"github.com/square/go-jose/", "github.com/btcsuite/", "golang.org/x/crypto/"} {
+		if path == p || (strings.HasSuffix(p, "/") && strings.HasPrefix(path, p)) {
 			return true
 		}
 	}
